@@ -120,7 +120,10 @@ type c17world struct {
 	raws      []*c17raw
 	rawMu     sync.Mutex
 	rawByAddr map[string]*c17raw
-	stopped   bool // Router.Stop was called (op astop)
+	// connections the server dials itself, driven act by act (c17dial.go)
+	dials      []*c17dialT
+	dialByAddr map[string]*c17dialT
+	stopped    bool // Router.Stop was called (op astop)
 	// an error of the harness's own plumbing (a dial that fails under load, a write on a connection the kernel
 	// reset): the rest of the case is not run and the case is counted as inconclusive, never as a failure
 	incon string
@@ -191,6 +194,7 @@ func (w *c17world) open(tr string) string {
 
 func (w *c17world) close() {
 	w.releasePending()
+	w.dialClose()
 	w.accClose()
 	for _, in := range w.insts {
 		w.stopInst(in)
@@ -661,6 +665,11 @@ func c17exec(c *h.Ctx, cs *h.Case) {
 				obs = o
 				tags["astop"] = true
 			}
+		case len(tk) >= 3 && (tk[1] == "ddial" || tk[1] == "dreg" || tk[1] == "dlaunch" || tk[1] == "dmsg"):
+			if o, ok := w.dialOp(tk); ok {
+				obs = o
+				tags[tk[1]+":"+strings.SplitN(o, ":", 2)[0]] = true
+			}
 		case len(tk) >= 3 && strings.HasPrefix(tk[1], "a"):
 			if o, ok := w.accOp(tk); ok {
 				obs = o
@@ -1025,6 +1034,83 @@ func c17gen(c *h.Ctx, yield func(*h.Case)) {
 			}
 		}
 		emit("accept-"+tr, ops...)
+	}
+	// ---- the dialling side act by act (c17dial.go): SetValidPeers calls, offers and accepting goroutines between the
+	// connect, the registration and the launch of a connection the server opens itself
+	for _, tr := range []string{"tcp", "local"} {
+		emit("corpus-dial-set-in-between",
+			"c17 open "+tr,
+			"c17 set r01 1",
+			"c17 ddial 0 9", // 9 is in no set: the router dials it all the same
+			"c17 set r01 -",
+			"c17 aconn 0", "c17 aident 0 9", // the same peer offering a connection is refused
+			"c17 dreg 0",
+			"c17 set c1/02 2",
+			"c17 dlaunch 0", "c17 dmsg 0 1", "c17 msg 9 2",
+			"c17 ddial 1 2", "c17 aconn 1", "c17 aident 1 2", "c17 areg 1", "c17 dreg 1", "c17 set c1/02 -", "c17 alaunch 1", "c17 dlaunch 1",
+			"c17 amsg 1 3", "c17 dmsg 1 4", "c17 offer 9 5", "c17 offer 2 6",
+			"c17 ddial 2 7", "c17 ddial 3 8:1", "c17 dreg 3", "c17 astop", "c17 dreg 2", "c17 dlaunch 3")
+	}
+	for i, nd := 0, c.Pick(12, 200); i < nd && !b7SearchOver(); i++ {
+		tr := []string{"tcp", "local"}[r.Intn(2)]
+		ops := []string{"c17 open " + tr}
+		var ph []int // per dial: 0 connected, 1 registered, 2 running, 3 closed
+		msg, stopped := 0, false
+		sets := []string{"r01", "c1/02", "x2/01"}
+		for j, ns := 0, 5+r.Intn(10); j < ns; j++ {
+			msg++
+			var cand []int
+			for d, p := range ph {
+				if p < 3 && !(stopped && p == 2) {
+					cand = append(cand, d)
+				}
+			}
+			switch x := r.Intn(10); {
+			case x < 3:
+				var l []string
+				for _, k := range []int{1, 2, 3, 4, 5, 11, 12, 13, 14} {
+					if r.Intn(3) == 0 {
+						l = append(l, strconv.Itoa(k))
+					}
+				}
+				ops = append(ops, "c17 set "+sets[r.Intn(len(sets))]+" "+tfJoin(l))
+			case x < 5 && !stopped && len(ph) < 4:
+				// a key of its own per dial: a Send towards a peer the server already has a connection with would not connect
+				k := 11 + len(ph)
+				id := strconv.Itoa(k)
+				if r.Intn(5) == 0 {
+					id += ":" + strconv.Itoa(1+r.Intn(5))
+				}
+				ops = append(ops, fmt.Sprintf("c17 ddial %d %s", len(ph), id))
+				ph = append(ph, 0)
+			case x < 8 && len(cand) > 0:
+				d := cand[r.Intn(len(cand))]
+				switch ph[d] {
+				case 0:
+					ops = append(ops, fmt.Sprintf("c17 dreg %d", d))
+					ph[d] = 1
+					if stopped {
+						ph[d] = 3
+					}
+				case 1:
+					ops = append(ops, fmt.Sprintf("c17 dlaunch %d", d))
+					ph[d] = 2
+					if stopped {
+						ph[d] = 3
+					}
+				case 2:
+					ops = append(ops, fmt.Sprintf("c17 dmsg %d %d", d, msg))
+				}
+			case x < 9 && !stopped:
+				ops = append(ops, fmt.Sprintf("c17 offer %d %d", 1+r.Intn(6), msg))
+			case !stopped && r.Intn(4) == 0:
+				ops = append(ops, "c17 astop")
+				stopped = true
+			default:
+				ops = append(ops, "c17 get "+sets[r.Intn(len(sets))])
+			}
+		}
+		emit("dial-"+tr, ops...)
 	}
 	// ---- TLS listener (c17tls.go): the peer is the holder of a private key, whatever names its certificate and its
 	// identity message carry.  offercert <key held> <CN> <URI|-> <name under the signature> <identity> <m>
